@@ -373,6 +373,21 @@ class CanBehaveLikeAVariable(SymbolicExpression[T], ABC):
         self._if_not_in_symbolic_mode_raise_error_('__ge__')
         return Comparator(self, other, operator.ge)
 
+    @property
+    def _is_in_condition_position_(self) -> bool:
+        """
+        Whether this expression stands where a condition is expected (and is thus interpreted as a boolean),
+        as opposed to being used as a value by its parent.
+        """
+        parent = self._parent_
+        if isinstance(parent, LogicalOperator):
+            return True
+        if isinstance(parent, QueryObjectDescriptor):
+            return parent._child_ is self
+        if isinstance(parent, ForAll):
+            return parent.condition is self
+        return False
+
     def _if_not_in_symbolic_mode_raise_error_(self, method_name: str) -> None:
         if not in_symbolic_mode():
             raise AttributeError(f"You are not in symbolic_mode {self.__class__.__name__} object has no attribute"
@@ -879,7 +894,14 @@ class Variable(CanBehaveLikeAVariable[T]):
             else:
                 # If no kwargs expression, or is currently being evaluated then yield from the domain directly,
                 # if ht kwargs is being evaluated, it will want to take the domain from here and constrain it further.
-                yield from self
+                if isinstance(self, Literal) and self._is_in_condition_position_:
+                    # a constant standing where a condition is expected is interpreted as a boolean.
+                    for value in self:
+                        self._is_false_ = bool(value[self._id_].value) == self._invert_
+                        if self._yield_when_false_ or not self._is_false_:
+                            yield value
+                else:
+                    yield from self
         elif not self._is_inferred_ and not self._predicate_type_:
             self._update_domain_and_kwargs_expression_()
             yield from self._evaluate__(sources, yield_when_false=self._yield_when_false_)
@@ -1137,21 +1159,6 @@ class DomainMapping(CanBehaveLikeAVariable[T], ABC):
                 if self._yield_when_false_ or not self._is_false_:
                     values[self._id_] = v
                     yield values
-
-    @property
-    def _is_in_condition_position_(self) -> bool:
-        """
-        Whether this mapping stands where a condition is expected (and is thus interpreted as a boolean),
-        as opposed to being used as a value by its parent.
-        """
-        parent = self._parent_
-        if isinstance(parent, LogicalOperator):
-            return True
-        if isinstance(parent, QueryObjectDescriptor):
-            return parent._child_ is self
-        if isinstance(parent, ForAll):
-            return parent.condition is self
-        return False
 
     @abstractmethod
     def _apply_mapping_(self, value: HashedValue) -> Iterable[HashedValue]:
